@@ -76,6 +76,23 @@ pub fn check_pair(c: &PairCase, st: &mut Stats) {
     } else {
         st.count("unlike_pairs");
     }
+    // the value does not depend on what was evaluated before: a sibling pair with the same
+    // sizes and cutoff but another epsilon is evaluated in between
+    if like {
+        let k = 3.7;
+        let (sa, sb) = (LJ2 { epsilon: c.a.eps * k, ..c.a.lib() }, LJ2 { epsilon: c.b.eps * k, ..c.b.lib() });
+        let es = sa.energy(&sb);
+        let want = lj(r, c.a.sigma, c.a.eps * k, c.a.cutoff);
+        if !((es - want).abs() <= 1e-12 * sc * k + 1e-300) {
+            st.violation(viol("c13.pair", "depends-on-the-previous-evaluation", case(), json!({"r": r, "sibling_epsilon": c.a.eps * k, "library": es, "law": want, "evaluated_just_before": eab})));
+            return;
+        }
+        let again = la.energy(&lb);
+        if again.to_bits() != eab.to_bits() {
+            st.violation(viol("c13.pair", "depends-on-the-previous-evaluation", case(), json!({"r": r, "first": eab, "after_a_sibling_evaluation": again})));
+            return;
+        }
+    }
     // symmetric in the two particles
     if !((eab - eba).abs() <= 1e-12 * sc + 1e-300) {
         let what = if like { "asymmetric-like" } else { "asymmetric-unlike" };
@@ -136,21 +153,24 @@ fn gen_particle<R: Rng>(rng: &mut R, sigma: f64, eps: f64, cutoff: Option<f64>, 
 }
 
 pub fn gen_pair<R: Rng>(rng: &mut R) -> PairCase {
-    let sigma: f64 = match rng.gen_range(0, 4) {
+    let sigma: f64 = match rng.gen_range(0, 6) {
         0 => 1.,
         1 => 2.,
+        // all length scales: the law is scale-covariant
+        2 => 10f64.powf(rng.gen_range(-9., 3.)),
         _ => rng.gen_range(0.1, 5.),
     };
     let eps = if rng.gen_bool(0.4) { 1. } else { rng.gen_range(0.1, 5.) };
+    let scaled = sigma < 0.1 || sigma > 5.;
     let cutoff: Option<f64> = match rng.gen_range(0, 4) {
         0 => None,
-        1 => Some(3.5),
-        _ => Some(rng.gen_range(1.5, 6.)),
+        1 if !scaled => Some(3.5),
+        _ => Some(rng.gen_range(1.5, 6.) * if scaled { sigma } else { 1. }),
     };
     let unlike = rng.gen_bool(0.35);
     let (s2, e2, c2) = if unlike {
         (
-            if rng.gen_bool(0.7) { rng.gen_range(0.1, 5.) } else { sigma },
+            if rng.gen_bool(0.7) { rng.gen_range(0.1, 5.) * if scaled { sigma } else { 1. } } else { sigma },
             if rng.gen_bool(0.5) { rng.gen_range(0.1, 5.) } else { eps },
             cutoff,
         )
@@ -167,7 +187,7 @@ pub fn gen_pair<R: Rng>(rng: &mut R) -> PairCase {
         _ => sigma.max(s2) * (0.5f64.ln() + rng.gen::<f64>() * (10f64 / 0.5).ln()).exp(),
     };
     let dir: f64 = if rng.gen_bool(0.3) { 0. } else { rng.gen_range(0., 2. * PI) };
-    let origin = if rng.gen_bool(0.5) { [0., 0.] } else { [rng.gen_range(-20., 20.), rng.gen_range(-20., 20.)] };
+    let origin = if rng.gen_bool(0.5) || scaled { [0., 0.] } else { [rng.gen_range(-20., 20.), rng.gen_range(-20., 20.)] };
     let a = gen_particle(rng, sigma, eps, cutoff, origin);
     let b = gen_particle(rng, s2, e2, c2, [origin[0] + r * dir.cos(), origin[1] + r * dir.sin()]);
     let motion = if rng.gen_bool(0.5) {
@@ -319,7 +339,7 @@ pub fn gen_mol<R: Rng>(rng: &mut R) -> MolCase {
 }
 
 pub fn run(ctx: &Ctx) {
-    ctx.set_rule("particle pairs: sigma, epsilon 0.1-5 (and 1, 2), cutoff None/3.5/1.5-6, like and unlike pairs, r log-uniform 0.5-10 sigma and at the cutoff +-3 ulps / +-1e-6, random directions and origins, optional common rigid motion or reflection; checked: 12-6 law (1e-12 of the term scale) for like pairs, symmetry, exact zero at/after the cutoff, continuity just inside it, invariance under the motion; uncut minimum located by golden-section search on library values; molecule energy = sum of its particle-pair energies for circles and trimers over the CLI's ranges; non-trivial = separation inside the cutoff; distinct by quantised (r, sigma, epsilon, cutoff)");
+    ctx.set_rule("particle pairs: sigma 0.1-5 (and 1, 2, and all length scales 1e-9..1e3), epsilon 0.1-5, cutoff None/3.5/1.5-6, like and unlike pairs, r log-uniform 0.5-10 sigma and at the cutoff +-3 ulps / +-1e-6, random directions and origins, optional common rigid motion or reflection; checked: 12-6 law (1e-12 of the term scale) for like pairs, symmetry, exact zero at/after the cutoff, continuity just inside it, invariance under the motion; uncut minimum located by golden-section search on library values; molecule energy = sum of its particle-pair energies for circles and trimers over the CLI's ranges; non-trivial = separation inside the cutoff; distinct by quantised (r, sigma, epsilon, cutoff)");
     let n = ctx.tier.pick(30_000u64, 3_000_000u64);
     par_shards(ctx, 13, 64, |_, rng, st| {
         for _ in 0..n {
